@@ -37,7 +37,7 @@ func ShutdownScenario(t *rapid.T) sim.Scenario {
 		op := pick(t, "faultop", []string{"recv", "recv", "send"})
 		f := sim.Fault{Op: op, At: rapid.IntRange(1, 6).Draw(t, "faultat"), Kind: "err"}
 		if op == "recv" {
-			f.Kind = pick(t, "faultkind", []string{"err", "data+eof", "data+err"})
+			f.Kind = pick(t, "faultkind", []string{"err", "data+eof", "data+err", "netclosed", "chanclosed"})
 		}
 		sc.Cfg.Faults = append(sc.Cfg.Faults, f)
 	}
